@@ -123,6 +123,13 @@ def check_C10(ctx):
         cs.eval(t_, o_, fam_)
     for (t_, o_, fam_, *_m) in scale.odd_keys(ctx):
         cs.eval(t_, o_, fam_)
+    for (t_, o_, fam_, *_m) in scale.guard_patterns(ctx):
+        cs.eval(t_, o_, fam_)
+    # a name that could be split at `:` `-` `_` into a sibling object and a key in it; function values (never called)
+    fb = obj({'ext': {'flag': ('b', True), 'n': ('nil',)}, 'a': {'b': I(1)}, 'x': ('o', 35), 'y': ('o', 36), 'z': ('o', 37), 'n': {'x': ('o', 37)}})
+    for t_ in ['ext:flag pr', 'ext:flag eq null', 'ext:flag eq true', 'ext:flag ne false', 'ext:n pr', 'ext:zz pr', 'a-b eq 1', 'a-b pr', 'a_b eq 1', 'a:b pr', 'a:b eq null', 'ext-flag eq true',
+               'x pr', 'x eq null', 'x eq true', 'y pr', 'y eq true', 'y ne false', 'y eq null', 'z pr', 'z.admin pr', 'z.admin eq true', 'n.x.admin pr', 'n.x pr', 'x ne null', 'z eq null']:
+        cs.eval(t_, fb, 'fallback-names')
     res = ctx.run(cs)
     ctx.exhaustive = True
     ctx.compare(cs.cases, res, ['verdict', 'err'], scope=accepted)
@@ -484,6 +491,16 @@ def check_C08(ctx):
     # size and shape beyond small random rules (harness/scale.py)
     for (t_, o_, fam_, *_m) in scale.long_lists(ctx):
         cs.eval(t_, o_, fam_)
+    for (t_, o_, fam_, *_m) in scale.separator_strings(ctx):
+        cs.eval(t_, o_, fam_)
+    for (t_, o_, fam_, *_m) in scale.escaped_list_elements(ctx):
+        cs.eval(t_, o_, fam_)
+    for (t_, o_, fam_, *_m) in scale.printing_alike(ctx):
+        cs.eval(t_, o_, fam_)
+    for n_ in ([4097] if ctx.quick else [4097, 10000, 65537]):
+        big_ = 'x in [%s]' % ', '.join(str(i_ * 2) for i_ in range(n_))
+        for a_ in (I(2 * (n_ - 1)), I(1), F(2.0), F(2.5), I(0), ABSENT):
+            cs.eval(big_, obj({'x': a_}) if a_ is not ABSENT else obj({}), 'long-list')
     res = ctx.run(cs)
     ctx.compare(cs.cases, res, ['verdict', 'err'], scope=accepted)
     for c_in, c_eq, vs in groups:
@@ -537,6 +554,8 @@ def check_C06(ctx):
         cs.eval(t_, o_, fam_)
     for (t_, o_, fam_, *_m) in scale.long_chains(ctx):
         cs.eval(t_, o_, fam_)
+    for (t_, o_, fam_, *_m) in scale.guard_patterns(ctx):
+        cs.eval(t_, o_, fam_)
     res = ctx.run(cs)
     ctx.compare(cs.cases, res, ['verdict', 'err'], scope=accepted)
     spec_violations(ctx, 'failure/verdict')
@@ -581,6 +600,8 @@ def check_C16(ctx):
     for (t_, o_, fam_, *_m) in scale.long_fail_chains(ctx):
         cs.eval(t_, o_, fam_)
     for (t_, o_, fam_, *_m) in scale.deep_paths(ctx):
+        cs.eval(t_, o_, fam_)
+    for (t_, o_, fam_, *_m) in scale.guard_patterns(ctx):
         cs.eval(t_, o_, fam_)
     res = ctx.run(cs)
     ctx.compare([c for c in cs.cases if c.kind != 'hist'], res, ['dbg'], scope=accepted)
@@ -986,6 +1007,12 @@ def check_C02(ctx):
             deep_groups.append((c_, m_[1], [cs.eval(ct_, o_, 'deep-path-alone') for ct_ in m_[0]]))
     for (t_, o_, fam_, *_m) in scale.nonascii_prefix(ctx):
         cs.eval(t_, o_, fam_)
+    # two and more string comparisons in one rule over string-like values of every kind (a remembered operand must not leak)
+    for a1_ in STRINGER_ATTRS + [S('abc'), S('10.0.0.1')]:
+        for a2_ in STRINGER_ATTRS[:4] + [('strslice', b'abc'), ('strslice', b'10.0.0.1'), S('ABC')]:
+            o_ = obj({'ip': a1_, 'peer': a2_})
+            for t_ in ['ip sw "10." and peer ew ".1"', 'ip eq "abc" or peer eq "abc"', 'ip co "b" and peer co "b" and ip ew "c"', 'peer eq "abc" and ip ne "abc"', 'ip in ["abc"] or peer in ["10.0.0.1"]']:
+                cs.eval(t_, o_, 'two-string-comparisons')
     res = ctx.run(cs)
     ctx.compare(cs.cases, res, ['verdict', 'err', 'dbg'], scope=accepted)
     # what ONE path denotes is fixed by the statement (successive exact lookups, absent as soon as a step is missing or nil):
@@ -1172,8 +1199,12 @@ def check_C15(ctx):
     for (t_, o_, fam_, *_m) in scale.aligned_lines(ctx):
         canon_ = cs.eval(t_.replace(' \n', ' '), o_, 'aligned-lines')
         groups.append((canon_, [cs.eval(t_, o_, 'aligned-lines')]))
+    for (t_, o_, fam_, *_m) in scale.printing_alike(ctx)[::3]:
+        canon_ = cs.eval(t_, o_, fam_)
+        groups.append((canon_, [cs.eval(t_.replace(' in ', ' IN ', 1), o_, fam_), cs.eval('(' + t_ + ')', o_, fam_), cs.eval(t_.replace(', ', ',  '), o_, fam_)]))
     res = ctx.run(cs)
     ctx.compare(cs.cases, res, ['accept', 'verdict', 'err', 'dbg'])
+    run_sequences(ctx, fields=('accept', 'verdict', 'err'))
     for canon, vs in groups:
         co = res.impl.get(canon.id)
         if not co:
@@ -1199,6 +1230,15 @@ def check_C05(ctx):
         cs.eval(t_, o_, fam_)
     for t_ in scale.long_tokens(ctx):
         cs.eval(t_, obj({'x': I(1)}), 'long-token')
+    # an evaluator of a malformed text stays rejecting: after Reset, after other evaluators were created, on every call
+    bad_texts = [t for t in FIXED_TEXTS if isinstance(t, str)][:120]
+    hist_cases, il_cases = [], []
+    for t_ in bad_texts:
+        o1_, o2_ = obj({'x': I(1), 'y': I(2), 'z': I(3)}), obj({'x': I(0), 'y': I(5)})
+        hist_cases.append(cs.hist(t_, [('p', o1_), ('r',), ('p', o1_), ('d',), ('p', o2_), ('r',), ('r',), ('p', o1_)], 'malformed-history'))
+        for other in ('x eq 1', 'x eq', 'y eq 2 or x eq 1'):
+            il_cases.append(cs.simple('ileave', '%s %s %s' % (hx(t_), hx(other), val_sx(o1_)), 'interleaved-evaluators', a=t_, b=other))
+            il_cases.append(cs.simple('ileave', '%s %s %s' % (hx(other), hx(t_), val_sx(o1_)), 'interleaved-evaluators', a=other, b=t_))
     res = ctx.run(cs)
     def valid_utf8(c, mo=None, io=None):
         """the statement is about valid UTF-8 texts (C14 / C07 / C20 cover arbitrary bytes)"""
@@ -1207,7 +1247,9 @@ def check_C05(ctx):
             return True
         except (UnicodeDecodeError, ValueError):
             return False
-    ctx.compare(cs.cases, res, ['accept', 'verdict', 'err', 'ev3'], scope=valid_utf8)
+    ctx.compare([c for c in cs.cases if c.kind in ('hist', 'ileave')], res, ['out'])
+    spec_violations(ctx, 'evaluators of malformed texts')
+    ctx.compare([c for c in cs.cases if c.kind not in ('hist', 'ileave')], res, ['accept', 'verdict', 'err', 'ev3'], scope=valid_utf8)
     nrej = 0
     for c in cs.cases:
         mo, io = res.model.get(c.id), res.impl.get(c.id)
@@ -1245,6 +1287,18 @@ def check_C20(ctx):
             t_ = 'a%d pr and (%s)' % (i_, t_) if i_ % 2 else 'not (%s) or b%d eq %d' % (t_, i_, i_)
         cs.syntax(t_, 'deep-sentence')
         cs.syntax(t_ + ')', 'deep-sentence')
+    # a sentence with one extra character at its very ends (format characters, BOM, every kind of blank, controls)
+    for ch_ in ['\x00', '\x07', '\x1b', '\x7f', '\u200b', '\ufeff', '\u00ad', '\ue000', '\u2060', '\U000e0001', '\u200e', '\u061c', '\t', '\r', '\n', '\x0b', '\x0c', ' ', '\u0085', '\u00a0',
+                '\u1680', '\u2003', '\u2028', '\u2029', '\u202f', '\u205f', '\u3000', '\u180e', '\ufffe', '\ufffd', ';', '#', '"', "'", '`']:
+        for b_ in ['x eq 1', 'x pr', '(x eq 1)', 'x eq "a"', 'x in [1]', 'not (x pr)']:
+            cs.syntax(ch_ + b_, 'edge-character')
+            cs.syntax(b_ + ch_, 'edge-character')
+            cs.syntax(ch_ + ch_ + b_, 'edge-character')
+    if not ctx.quick:
+        # sentences of more than a mebibyte (a long literal, a long list, a long flat chain)
+        cs.syntax('x eq "%s"' % ('a' * 1100000), 'mebibyte-sentence')
+        cs.syntax('x in [%s]' % ', '.join(['1'] * 380000), 'mebibyte-sentence')
+        cs.syntax(' or '.join(['x eq 1'] * 110000), 'mebibyte-sentence')
     res = ctx.run(cs)
     ctx.compare(cs.cases, res, ['lexok', 'toks', 'accept', 'tree'], nontrivial=lambda c, mo: True)
     nacc = sum(1 for c in cs.cases if (res.model.get(c.id) or {}).get('accept') == '1')
@@ -1273,7 +1327,7 @@ def check_C20(ctx):
 
 # ----------------------------------------------------------------------------
 HOSTILE_STRINGS = [S(b'\x80' * 100), S(b'\xbf' * 65), S(b'\xff' * 70), S('\u00e9' * 40), S('a' * 63 + '\u00e9' + 'b' * 10), S('x' * 300), S(b'a' * 64 + b'\xc3'), S(b'\xe3\x81' * 40), S('\U0001f600' * 20), S(b'\x00' * 70)]
-HOSTILE = HOSTILE_STRINGS + [('strpanic',), ('strnilptr',), ('strselfpanic',), ('nilmap',), ('nil',), F(float('nan')), F(float('inf')), F(float('-inf'))] + [('o', t) for t in list(range(21)) + [22, 23, 24, 25, 26, 27, 29, 30, 31, 32, 33, 34]] + \
+HOSTILE = HOSTILE_STRINGS + [('strpanic',), ('strnilptr',), ('strselfpanic',), ('nilmap',), ('nil',), F(float('nan')), F(float('inf')), F(float('-inf'))] + [('o', t) for t in list(range(21)) + [22, 23, 24, 25, 26, 27, 29, 30, 31, 32, 33, 34, 35, 36, 37]] + \
           [('str', b'abc'), ('strptr', b'1.0.0'), ('m', [(b'y', ('strpanic',))]), ('m', [(b'y', ('o', 3))])]
 
 def check_C07(ctx):
